@@ -80,6 +80,7 @@ type proc struct {
 	tag     string
 	routes  []string
 	err     string // start-up failure
+	seedFam string // start-up failed while (or because) a valid seed was being served: a finding, not a harness error
 }
 
 type pool struct {
@@ -191,32 +192,57 @@ func (pl *pool) spawn() *proc {
 		}
 		close(p.lines)
 	}()
-	select {
-	case l, ok := <-p.lines:
-		kind, rest, _ := strings.Cut(l, " ")
-		switch {
-		case !ok:
-			cmd.Wait()
-			lb, _ := os.ReadFile(p.logPath)
-			if len(lb) > 2000 {
-				lb = lb[len(lb)-2000:]
+	lastW := ""
+	deadline := time.After(150 * time.Second)
+	for {
+		select {
+		case l, ok := <-p.lines:
+			kind, rest, _ := strings.Cut(l, " ")
+			switch {
+			case !ok:
+				cmd.Wait()
+				lb, _ := os.ReadFile(p.logPath)
+				msg := panicLine.FindString(string(lb))
+				if len(lb) > 2000 {
+					lb = lb[len(lb)-2000:]
+				}
+				p.seedFam = lastW
+				p.err = fmt.Sprintf("worker %s exited before it was ready (while serving the valid seed of %q) %s\n%s", tag, lastW, msg, lb)
+				return p
+			case kind == "W":
+				var m struct {
+					Family string `json:"family"`
+				}
+				json.Unmarshal([]byte(rest), &m)
+				lastW = m.Family
+			case kind == "S":
+				p.seedFam = lastW
+				p.err = "no response to the valid seed of " + lastW + ": " + rest
+				p.kill()
+				return p
+			case kind == "F":
+				p.seedFam = lastW
+				p.err = rest
+				p.kill()
+				return p
+			case kind == "R":
+				var m struct {
+					Routes []string `json:"routes"`
+				}
+				json.Unmarshal([]byte(rest), &m)
+				p.routes = m.Routes
+				return p
+			default:
+				p.err = "worker " + tag + " start-up: " + l
+				p.kill()
+				return p
 			}
-			p.err = fmt.Sprintf("worker %s exited before it was ready\n%s", tag, lb)
-		case kind == "R":
-			var m struct {
-				Routes []string `json:"routes"`
-			}
-			json.Unmarshal([]byte(rest), &m)
-			p.routes = m.Routes
-		default:
-			p.err = "worker " + tag + " start-up: " + l
+		case <-deadline:
+			p.err = "worker " + tag + " not ready after 150 s"
 			p.kill()
+			return p
 		}
-	case <-time.After(120 * time.Second):
-		p.err = "worker " + tag + " not ready after 120 s"
-		p.kill()
 	}
-	return p
 }
 
 func runWorker(pl *pool, file string, offset int64, count int, deadline, noProgress time.Duration) *workerRun {
@@ -224,6 +250,9 @@ func runWorker(pl *pool, file string, offset int64, count int, deadline, noProgr
 	p := <-pl.ready
 	if p.err != "" {
 		wr.Kind, wr.HarnessErr = "harness", p.err
+		if p.seedFam != "" {
+			wr.Kind, wr.Site = "seedfail", p.seedFam
+		}
 		return wr
 	}
 	wr.Routes = p.routes
@@ -441,6 +470,7 @@ func main() {
 	flaky := 0
 	confirmed := map[string]int{}   // class -> culprits confirmed by 3 solo re-runs
 	unconfirmed := map[string]int{} // class -> further first-pass suspects of an already confirmed class (not re-run)
+	seedFail := map[string]string{} // family -> what happened to its valid seed during a worker's warm-up
 	soloSem := make(chan struct{}, nw)
 	pl := newPool(self, scratch, vlimitKB, nw, nw/2+1)
 
@@ -476,6 +506,12 @@ func main() {
 				}
 				mu.Unlock()
 				pos += len(wr.Results)
+				if wr.Kind == "seedfail" {
+					mu.Lock()
+					seedFail[wr.Site] = wr.HarnessErr
+					mu.Unlock()
+					return
+				}
 				if wr.Kind == "harness" {
 					mu.Lock()
 					harnessErr = wr.HarnessErr
@@ -521,6 +557,10 @@ func main() {
 							if s.CulpritID == in.ID && (s.Kind == "exit" || s.Kind == "stall") {
 								fails++
 								last = s
+							} else if s.Kind == "seedfail" {
+								mu.Lock()
+								seedFail[s.Site] = s.HarnessErr
+								mu.Unlock()
 							} else if s.Kind == "harness" {
 								mu.Lock()
 								harnessErr = s.HarnessErr
@@ -549,6 +589,18 @@ func main() {
 	}
 	wg.Wait()
 	pl.close()
+	if len(seedFail) > 0 {
+		// the ingest side does not even serve a valid push any more: every worker fails the same way during warm-up
+		for fam, what := range seedFail {
+			if len(what) > 600 {
+				what = what[:600]
+			}
+			r.Violate("valid_seed_not_served:"+fam, "a valid "+fam+" push (the seed every other input is derived from) is not answered / not acknowledged / kills the process: "+what, map[string]any{"family": fam})
+		}
+		r.States, r.Transitions = 1, 1
+		r.Cap("stopped: valid seeds are not served")
+		r.Finish()
+	}
 	if harnessErr != "" {
 		ev.Fatal("%s", harnessErr)
 	}
@@ -769,6 +821,11 @@ func replay(r *ev.Run, self, scratch string, deadline, noProgress time.Duration,
 	pl := newPool(self, scratch, vlimitKB, 1, 1)
 	defer pl.close()
 	wr := runWorker(pl, f, 0, 1, deadline, noProgress)
+	if wr.Kind == "seedfail" {
+		r.States, r.Transitions = 1, 1
+		r.Violate("valid_seed_not_served:"+wr.Site, "a valid "+wr.Site+" push is not served: "+wr.HarnessErr, map[string]any{"family": wr.Site})
+		r.Finish()
+	}
 	if wr.Kind == "harness" {
 		ev.Fatal("%s", wr.HarnessErr)
 	}
